@@ -33,7 +33,7 @@ rm -f "$wt/$dest/$file"
 mkdir -p "$wt/.verif"; cp "$here/known_findings.json" "$wt/.verif/"
 verdicts=""
 for p in "$@"; do
-  out=$(GOFLAGS=-mod=vendor "$here/bin/kxcheck" -prop "$p" -repo "$wt" -verif "$wt/.verif" 2>&1)
+  out=$(GOFLAGS=-mod=vendor "${KX_BIN:-$here/bin/kxcheck}" -prop "$p" -repo "$wt" -verif "$wt/.verif" 2>&1)
   rc=$?
   verdicts="$verdicts $p=exit$rc"
   echo "$out" | grep -v '^   \|^==' | sed "s#$wt/##g" | head -${SEED_LINES:-8}
